@@ -560,4 +560,304 @@ theorem fromHeader_only_valid (h : Bytes) (es : Entries) (he : fromHeader h = .o
               exact ⟨k, v, ks, vs, rfl, by omega, hk, hv, hval.1, hval.2.1, hval.2.2, hme.symm⟩
             · rw [if_neg hval] at hme; simp at hme
 
+/-! ## Round trip: `FromHeader (ToHeader b) = b` -/
+
+/-- does a metadata part end in white space (which the tokenizer would trim away)? -/
+def endsInSpace (m : Bytes) : Bool :=
+  match m.getLast? with
+  | some c => isSpace c
+  | none => false
+
+/-- **An entry that must survive the round trip** (explicit, decidable): non-empty printable key, printable value;
+    after the first `;` of the value (the metadata, written verbatim) no `,` — "values without an unescaped separator
+    after `;`" — and **no trailing white space** (D18: the tokenizer trims every list member, as the W3C grammar's
+    optional white space allows); and the written member is within the 4096-byte member limit. -/
+def RoundTrippableEntry (e : Bytes × Bytes) : Prop :=
+  e.1 ≠ [] ∧ Printable e.1 ∧ Printable e.2 ∧ 44 ∉ (metaSplit e.2).2 ∧ endsInSpace (metaSplit e.2).2 = false ∧
+  (pctEncode e.1).length + (pctEncode (metaSplit e.2).1 ++ (metaSplit e.2).2).length ≤ 4096
+
+/-- … and the whole baggage is within the 180-member and 8192-byte header limits -/
+def RoundTrippable (es : Entries) : Prop :=
+  (∀ e ∈ es, RoundTrippableEntry e) ∧ es.length ≤ 180 ∧ (toHeader es).length ≤ 8192
+
+instance (e : Bytes × Bytes) : Decidable (RoundTrippableEntry e) := by unfold RoundTrippableEntry; exact inferInstance
+instance (es : Entries) : Decidable (RoundTrippable es) := by unfold RoundTrippable; exact inferInstance
+
+def NoSpace (s : Bytes) : Prop := ∀ c ∈ s, isSpace c = false
+
+theorem pctEncode_clean (s : Bytes) : ∀ x ∈ pctEncode s, x ≠ 44 ∧ x ≠ 61 ∧ x ≠ 59 ∧ x ≠ 0 ∧ isSpace x = false := by
+  intro x hx
+  unfold pctEncode at hx
+  rw [List.mem_flatMap] at hx
+  obtain ⟨c, _, hc⟩ := hx
+  exact pctEncodeByte_clean c x hc
+
+theorem pctEncode_ne_nil (s : Bytes) (h : s ≠ []) : pctEncode s ≠ [] := by
+  cases s with
+  | nil => exact absurd rfl h
+  | cons c t =>
+    have hne := pctEncodeByte_ne_nil c
+    intro he
+    have : pctEncode (c :: t) = pctEncodeByte c ++ pctEncode t := by simp [pctEncode, List.flatMap_cons]
+    rw [this] at he
+    exact hne (List.append_eq_nil_iff.1 he).1
+
+theorem trimLeft_id (s : Bytes) (h : ∀ c, s.head? = some c → isSpace c = false) : trimLeft s = s := by
+  cases s with
+  | nil => rfl
+  | cons c t => exact trimLeft_of_head (h c rfl)
+
+/-- a string that neither starts nor ends with white space is left alone by `Trim` -/
+theorem trim_id (s : Bytes) (h1 : ∀ c, s.head? = some c → isSpace c = false)
+    (h2 : ∀ c, s.getLast? = some c → isSpace c = false) : trim s = s := by
+  unfold trim trimRight
+  rw [trimLeft_id s h1, trimLeft_id s.reverse (by rw [List.head?_reverse]; exact h2), List.reverse_reverse]
+
+theorem trim_nospace (s : Bytes) (h : NoSpace s) : trim s = s :=
+  trim_id s (fun c hc => h c (List.mem_of_head? hc)) (fun c hc => h c (List.mem_of_getLast? hc))
+
+theorem metaSplit_join (v : Bytes) : (metaSplit v).1 ++ (metaSplit v).2 = v := by
+  unfold metaSplit
+  cases h : takeTok 59 v with
+  | mk a o =>
+    cases o with
+    | none => simp [(takeTok_none h).1]
+    | some r => simp [(takeTok_some h).1]
+
+theorem metaSplit_shape (v : Bytes) : 59 ∉ (metaSplit v).1 ∧ ((metaSplit v).2 = [] ∨ ∃ r, (metaSplit v).2 = 59 :: r) := by
+  unfold metaSplit
+  cases h : takeTok 59 v with
+  | mk a o =>
+    cases o with
+    | none => exact ⟨(takeTok_none h).2, Or.inl rfl⟩
+    | some r => exact ⟨(takeTok_some h).2, Or.inr ⟨r, rfl⟩⟩
+
+/-- splitting an encoded value part followed by metadata gives them back -/
+theorem metaSplit_encoded (a m : Bytes) (hm : m = [] ∨ ∃ r, m = 59 :: r) : metaSplit (pctEncode a ++ m) = (pctEncode a, m) := by
+  have h59 : (59 : UInt8) ∉ pctEncode a := fun hx => (pctEncode_clean a 59 hx).2.2.1 rfl
+  unfold metaSplit
+  rcases hm with hm | ⟨r, hm⟩
+  · subst hm; rw [List.append_nil, takeTok_no_sep _ h59]
+  · subst hm; rw [takeTok_append_sep _ _ h59]
+
+theorem printable_append {a b : Bytes} (h : Printable (a ++ b)) : Printable a ∧ Printable b :=
+  ⟨fun c hc => h c (by simp [hc]), fun c hc => h c (by simp [hc])⟩
+
+/-- what `ToHeader` writes for one entry, in specification terms -/
+theorem memberOf_spec (e : Bytes × Bytes) :
+    memberOf e = pctEncode e.1 ++ 61 :: (pctEncode (metaSplit e.2).1 ++ (metaSplit e.2).2) := by
+  obtain ⟨_, _, _, g4, _⟩ := gen_baggage
+  unfold memberOf encodeValue
+  simp only [g4, urlEncode_spec, splitMeta_eq]
+  simp
+
+/-- **one member round-trips**: the written member has no `,`, is not empty, is untouched by trimming, and
+    contributes exactly the entry it was written from -/
+theorem member_roundtrip (e : Bytes × Bytes) (h : RoundTrippableEntry e) :
+    44 ∉ memberOf e ∧ memberOf e ≠ [] ∧ trim (memberOf e) = memberOf e ∧ memberEntry (memberOf e) = some e := by
+  obtain ⟨k, v⟩ := e
+  obtain ⟨hk, hpk, hpv, hcomma, hend, hsize⟩ := h
+  simp only [] at hk hpk hpv hcomma hend hsize
+  obtain ⟨h59, hshape⟩ := metaSplit_shape v
+  have hjoin := metaSplit_join v
+  generalize hA : (metaSplit v).1 = a at *
+  generalize hM : (metaSplit v).2 = m at *
+  have hm : memberOf (k, v) = pctEncode k ++ 61 :: (pctEncode a ++ m) := by rw [memberOf_spec]; simp only [hA, hM]
+  have ck := pctEncode_clean k
+  have ca := pctEncode_clean a
+  have hne : pctEncode k ≠ [] := pctEncode_ne_nil k hk
+  have hpa : Printable a ∧ Printable m := printable_append (by rw [hjoin]; exact hpv)
+  -- every byte of the encoded part is free of white space
+  have hpre : NoSpace (pctEncode k ++ 61 :: pctEncode a) := by
+    intro c hc
+    simp only [List.mem_append, List.mem_cons] at hc
+    rcases hc with hc | hc | hc
+    · exact (ck c hc).2.2.2.2
+    · subst hc; decide
+    · exact (ca c hc).2.2.2.2
+  refine ⟨?_, ?_, ?_, ?_⟩
+  · rw [hm]
+    simp only [List.mem_append, List.mem_cons, not_or]
+    exact ⟨fun hx => (ck 44 hx).1 rfl, by decide, fun hx => (ca 44 hx).1 rfl, hcomma⟩
+  · rw [hm]; simp
+  · rw [hm]
+    apply trim_id
+    · intro c hc
+      obtain ⟨x, t, hxt⟩ := List.exists_cons_of_ne_nil hne
+      rw [hxt] at hc
+      simp only [List.cons_append, List.head?_cons, Option.some.injEq] at hc
+      subst hc
+      exact (ck x (by rw [hxt]; simp)).2.2.2.2
+    · intro c hc
+      by_cases hmn : m = []
+      · subst hmn
+        rw [List.append_nil] at hc
+        exact hpre c (List.mem_of_getLast? hc)
+      · have : (pctEncode k ++ 61 :: (pctEncode a ++ m)).getLast? = m.getLast? := by
+          have e1 : pctEncode k ++ 61 :: (pctEncode a ++ m) = (pctEncode k ++ 61 :: pctEncode a) ++ m := by simp
+          rw [e1, List.getLast?_append]
+          obtain ⟨x, t, hxt⟩ := List.exists_cons_of_ne_nil hmn
+          cases hl : m.getLast? with
+          | none => rw [hxt] at hl; simp at hl
+          | some y => simp
+        rw [this] at hc
+        unfold endsInSpace at hend
+        rw [hc] at hend
+        exact hend
+  · rw [hm]
+    unfold memberEntry splitKv
+    have h61 : (61 : UInt8) ∉ pctEncode k := fun hx => (ck 61 hx).2.1 rfl
+    rw [takeTok_append_sep _ _ h61]
+    simp only []
+    rw [if_neg (by omega), metaSplit_encoded a m hshape]
+    simp only []
+    rw [trim_nospace (pctEncode k) (fun c hc => (ck c hc).2.2.2.2), trim_nospace (pctEncode a) (fun c hc => (ca c hc).2.2.2.2),
+      pctDecode_pctEncode, pctDecode_pctEncode]
+    simp only []
+    rw [if_pos ⟨hk, hpk, hpa.1⟩, cstr_printable k hpk, hjoin, cstr_printable v hpv]
+
+/-! ### the tokenizer on a written header -/
+
+theorem joinMembers_cons2 (m m' : Bytes) (t : List Bytes) : joinMembers (m :: m' :: t) = m ++ 44 :: joinMembers (m' :: t) := by
+  obtain ⟨_, _, _, _, g5, _⟩ := gen_baggage
+  simp [joinMembers, g5]
+
+def GoodMember (m : Bytes) : Prop := 44 ∉ m ∧ m ≠ [] ∧ trim m = m
+
+theorem kvMembers_join : ∀ (ms : List Bytes) (fuel : Nat), (∀ m ∈ ms, GoodMember m) → (joinMembers ms).length ≤ fuel →
+    kvMembers 44 fuel (joinMembers ms) = ms
+  | [], fuel, _, _ => by cases fuel <;> simp [joinMembers, kvMembers]
+  | [m], fuel, hg, hf => by
+    obtain ⟨h1, h2, h3⟩ := hg m (by simp)
+    obtain ⟨c, t, rfl⟩ := List.exists_cons_of_ne_nil h2
+    simp only [joinMembers] at hf ⊢
+    cases fuel with
+    | zero => simp at hf
+    | succ f =>
+      simp only [kvMembers, takeTok_no_sep _ h1, h3]
+      simp
+  | m :: m' :: t, fuel, hg, hf => by
+    obtain ⟨h1, h2, h3⟩ := hg m (by simp)
+    obtain ⟨c, t', rfl⟩ := List.exists_cons_of_ne_nil h2
+    rw [joinMembers_cons2] at hf ⊢
+    cases fuel with
+    | zero => simp at hf
+    | succ f =>
+      simp only [List.cons_append, kvMembers]
+      rw [← List.cons_append, takeTok_append_sep _ _ h1]
+      simp only [h3]
+      rw [kvMembers_join (m' :: t) f (fun x hx => hg x (by simp [hx])) (by simp at hf ⊢; omega)]
+      simp
+
+theorem numTokens_join : ∀ (ms : List Bytes) (fuel : Nat), (∀ m ∈ ms, GoodMember m) → (joinMembers ms).length ≤ fuel →
+    numTokens 44 fuel (joinMembers ms) = ms.length
+  | [], fuel, _, _ => by cases fuel <;> simp [joinMembers, numTokens]
+  | [m], fuel, hg, hf => by
+    obtain ⟨h1, h2, h3⟩ := hg m (by simp)
+    obtain ⟨c, t, rfl⟩ := List.exists_cons_of_ne_nil h2
+    simp only [joinMembers] at hf ⊢
+    cases fuel with
+    | zero => simp at hf
+    | succ f => simp only [numTokens, takeTok_no_sep _ h1]; simp
+  | m :: m' :: t, fuel, hg, hf => by
+    obtain ⟨h1, h2, h3⟩ := hg m (by simp)
+    obtain ⟨c, t', rfl⟩ := List.exists_cons_of_ne_nil h2
+    rw [joinMembers_cons2] at hf ⊢
+    cases fuel with
+    | zero => simp at hf
+    | succ f =>
+      simp only [List.cons_append, numTokens]
+      rw [← List.cons_append, takeTok_append_sep _ _ h1]
+      simp only []
+      rw [numTokens_join (m' :: t) f (fun x hx => hg x (by simp [hx])) (by simp at hf ⊢; omega)]
+      simp; omega
+
+theorem filterMap_memberOf : ∀ (es : Entries), (∀ e ∈ es, RoundTrippableEntry e) → (es.map memberOf).filterMap memberEntry = es
+  | [], _ => rfl
+  | e :: t, h => by
+    rw [List.map_cons, List.filterMap_cons, (member_roundtrip e (h e (by simp))).2.2.2,
+      filterMap_memberOf t (fun x hx => h x (by simp [hx]))]
+
+/-- **Round trip**: every baggage whose entries are `RoundTrippable` is written by `ToHeader` as a header from which
+    `FromHeader` rebuilds exactly the same entries in the same order -/
+theorem fromHeader_toHeader (es : Entries) (h : RoundTrippable es) : fromHeader (toHeader es) = .ok es := by
+  obtain ⟨he, hn, hsz⟩ := h
+  have hg : ∀ m ∈ es.map memberOf, GoodMember m := by
+    intro m hm
+    rw [List.mem_map] at hm
+    obtain ⟨e, hem, rfl⟩ := hm
+    obtain ⟨a, b, c, _⟩ := member_roundtrip e (he e hem)
+    exact ⟨a, b, c⟩
+  rw [fromHeader_eq, if_neg (by omega)]
+  unfold toHeader members numTok
+  rw [kvMembers_join _ _ hg (Nat.le_refl _), numTokens_join _ _ hg (Nat.le_refl _), filterMap_memberOf es he,
+    List.length_map, List.take_of_length_le (by omega)]
+
+/-- entries put in by `Set` stay `RoundTrippable` entries: **every baggage built through Set** (and Delete) **from
+    `RoundTrippable` entries** consists of such entries … -/
+theorem built_entries (ops : List Op) (hops : ∀ op ∈ ops, match op with
+      | .set _ k v => RoundTrippableEntry (k, v)
+      | .delete _ _ => True
+      | .fromHeader _ => False) :
+    ∀ st ∈ run ops, ∀ e ∈ st, RoundTrippableEntry e := by
+  unfold run
+  have key : ∀ (more : List Op) (st0 : List Entries),
+      (∀ op ∈ more, match op with | .set _ k v => RoundTrippableEntry (k, v) | .delete _ _ => True | .fromHeader _ => False) →
+      (∀ st ∈ st0, ∀ e ∈ st, RoundTrippableEntry e) → ∀ st ∈ more.foldl step st0, ∀ e ∈ st, RoundTrippableEntry e := by
+    intro more
+    induction more with
+    | nil => intro st0 _ h; exact h
+    | cons op t ih =>
+      intro st0 hop h
+      simp only [List.foldl_cons]
+      apply ih (step st0 op) (fun o ho => hop o (by simp [ho]))
+      have hbase : ∀ e ∈ st0.getD 0 [] , RoundTrippableEntry e := by
+        intro e he
+        cases hs : st0 with
+        | nil => rw [hs] at he; simp at he
+        | cons s0 _ => rw [hs] at he; simp at he; exact h s0 (by rw [hs]; simp) e he
+      have hget : ∀ i, ∀ e ∈ st0.getD i [], RoundTrippableEntry e := by
+        intro i e he
+        by_cases hi : i < st0.length
+        · rw [List.getD_eq_getElem?_getD, List.getElem?_eq_getElem hi] at he
+          exact h _ (List.getElem_mem hi) e he
+        · rw [List.getD_eq_getElem?_getD, List.getElem?_eq_none (by omega)] at he
+          simp at he
+      have hop0 := hop op (by simp)
+      intro st hst e he
+      cases op with
+      | set i k v =>
+        simp only [step, List.mem_append, List.mem_singleton] at hst
+        rcases hst with hst | hst
+        · exact h st hst e he
+        · subst hst
+          rw [set_eq] at he
+          unfold specSet at he
+          split at he
+          · simp only [List.mem_cons, List.mem_filter] at he
+            rcases he with he | he
+            · subst he; exact hop0
+            · exact hget i e he.1
+          · exact hget i e he
+      | delete i k =>
+        simp only [step, List.mem_append, List.mem_singleton] at hst
+        rcases hst with hst | hst
+        · exact h st hst e he
+        · subst hst
+          rw [delete_eq] at he
+          unfold specDelete at he
+          simp only [List.mem_filter] at he
+          exact hget i e he.1
+      | fromHeader hh => exact absurd hop0 (by simp)
+  exact key ops [[]] hops (by simp)
+
+/-- … and therefore round-trips, as long as it stays within the 180-member / 8192-byte limits -/
+theorem fromHeader_toHeader_built (ops : List Op) (hops : ∀ op ∈ ops, match op with
+      | .set _ k v => RoundTrippableEntry (k, v)
+      | .delete _ _ => True
+      | .fromHeader _ => False)
+    (st : Entries) (hst : st ∈ run ops) (hn : st.length ≤ 180) (hsz : (toHeader st).length ≤ 8192) :
+    fromHeader (toHeader st) = .ok st :=
+  fromHeader_toHeader st ⟨built_entries ops hops st hst, hn, hsz⟩
+
 end Otel.C15
